@@ -33,8 +33,10 @@ class DictHolder(ObjectHolder[T.Dict[str, TYPE_var]], IterableObject):
         # Comparison
         MesonOperator.EQUALS: (dict, lambda obj, x: obj.held_object == x),
         MesonOperator.NOT_EQUALS: (dict, lambda obj, x: obj.held_object != x),
-        MesonOperator.IN: (str, lambda obj, x: x in obj.held_object),
-        MesonOperator.NOT_IN: (str, lambda obj, x: x not in obj.held_object),
+        # Keys are always strings, so an object of another type is simply not
+        # in the dictionary (see "Dictionaries" in Syntax.md: `42 in my_dict`)
+        MesonOperator.IN: (object, lambda obj, x: isinstance(x, str) and x in obj.held_object),
+        MesonOperator.NOT_IN: (object, lambda obj, x: not (isinstance(x, str) and x in obj.held_object)),
     }
 
     def display_name(self) -> str:
